@@ -1904,6 +1904,23 @@ func (fx *FnExec) strConcat(st *State, a, b *Term) *Term {
 	if sb, ok := constStringOf(b); ok && sb == "" {
 		return a
 	}
+	// a short constant suffix: exact, quantifier-free (contents beyond the length are irrelevant)
+	if sb, ok := constStringOf(b); ok && len(sb) <= 8 {
+		arr := StrArr(a)
+		la := StrLen(a)
+		for i := 0; i < len(sb); i++ {
+			arr = Store(arr, Add(la, IntLit(int64(i))), IntLit(int64(sb[i])))
+		}
+		return MkStr(arr, Add(la, IntLit(int64(len(sb)))))
+	}
+	// a short constant prefix: prepend element by element
+	if sa, ok := constStringOf(a); ok && len(sa) <= 8 {
+		arr := StrArr(b)
+		for i := len(sa) - 1; i >= 0; i-- {
+			arr = ConsArr(IntLit(int64(sa[i])), arr)
+		}
+		return MkStr(arr, Add(StrLen(b), IntLit(int64(len(sa)))))
+	}
 	arr := fx.c.Fresh("cat", SArrI)
 	la, lb := StrLen(a), StrLen(b)
 	k := Var("k!c", SInt)
